@@ -189,7 +189,14 @@ class Conn:
         return self.remote.sock.closed
 
 
+STEP_HOOKS: list = []          # callables(world, label) run at quiescent points (cross-property monitors)
+
+
 class NodeWorld:
+    def _hooks(self, label):
+        for h in STEP_HOOKS:
+            h(self, label)
+
     def __init__(self, cfg: dict):
         self.cfg = cfg
         self.mods = sk.load_node()
@@ -288,6 +295,7 @@ class NodeWorld:
         self.node.start()
         self.k.run()
         self.sync_dialed()
+        self._hooks("start")
         return self
 
     # ---- callbacks from the code under test ----------------------------------
@@ -360,6 +368,7 @@ class NodeWorld:
         c = Conn(self, r, len(self.conns))
         self.conns.append(c)
         self.k.run()
+        self._hooks("accept")
         return c
 
     def feed(self, c: Conn, data: bytes, cuts=None, run=True):
@@ -373,6 +382,7 @@ class NodeWorld:
         if run:
             self.k.run()
             self.sync_dialed()
+            self._hooks("feed")
         return True
 
     def feed_msg(self, c: Conn, m: dict, cuts=None, run=True):
@@ -383,25 +393,40 @@ class NodeWorld:
         c.remote.close()
         self.k.run()
         self.sync_dialed()
+        self._hooks("peer_close")
 
     def peer_reset(self, c: Conn, err=_errno.ECONNRESET):
         c.peer_closed = True
         c.remote.reset(err)
         self.k.run()
         self.sync_dialed()
+        self._hooks("peer_reset")
 
     def connect_result(self, c: Conn, ok=True, err=_errno.ECONNREFUSED):
         c.remote.complete_connect(ok, err)
         self.k.run()
         self.sync_dialed()
+        self._hooks("connect_result")
 
     def advance(self, dt):
-        self.k.advance(dt)
+        if STEP_HOOKS and dt > 1:
+            # observe every whole second on the way
+            whole = int(dt)
+            for _ in range(whole):
+                self.k.advance(1)
+                self.sync_dialed()
+                self._hooks("advance")
+            if dt - whole > 0:
+                self.k.advance(dt - whole)
+        else:
+            self.k.advance(dt)
         self.sync_dialed()
+        self._hooks("advance")
 
     def run(self):
         self.k.run()
         self.sync_dialed()
+        self._hooks("run")
 
     def handshake_in(self, host="peer1.example", auth=(4,), acct=(), ip="10.1.1.1", hbh=0x100, **kw):
         """accept + CER for a configured peer; returns the Conn."""
@@ -431,6 +456,7 @@ class NodeWorld:
         self.calls.append(rec)
         self.k.run()
         self.sync_dialed()
+        self._hooks("app_call")
         return rec
 
     def submit_answer(self, req_rec, result_code=2001, name="answerer"):
@@ -565,6 +591,9 @@ def monitor_tables(w: NodeWorld):
     for ident, c in list(getattr(node, "_half_ready_connections", {}).items()):
         if ident not in tabled:
             out.append(("half-ready-stale", f"_half_ready_connections keeps {ident} after its connection was removed"))
+    for fileno, c in list(node.socket_peers.items()):
+        if c.ident not in tabled or conns.get(c.ident) is not c:
+            out.append(("socket-peers-stale", f"socket_peers[{fileno}] still maps to removed connection {c.ident}"))
     for ident, s in node.peer_sockets.items():
         if getattr(s, "closed", False):
             out.append(("closed-socket-tabled", f"socket of {ident} is closed but still in peer_sockets"))
